@@ -567,6 +567,9 @@ func (o *Oracles) onDurableChange(w *World, e *Event) {
 
 // quiescent: every source record has been acked at some time, or the pipeline is terminal.
 func (o *Oracles) quiescent(w *World) bool {
+	if w.gatesParked() > 0 {
+		return false // a preempted goroutine of the engine still has work to do
+	}
 	if st, ok := o.effStatus(w); ok && st != 1 && st != 5 {
 		return true
 	}
